@@ -37,8 +37,7 @@ Exec.attr_handlers[("Q", "query1")] = lambda ex, v, node, st: Val(Q, q_q1(v.t))
 Exec.attr_handlers[("Q", "point_attr")] = lambda ex, v, node, st: Val(TStr, q_attr(v.t))
 Exec.attr_handlers[("Q", "_point_attr")] = lambda ex, v, node, st: Val(TStr, q_attr(v.t))
 Exec.attr_handlers[("Q", "_rhs")] = lambda ex, v, node, st: Val(Dt, q_rhs_dt(v.t))
-Exec.attr_handlers[("Q", "_hash")] = lambda ex, v, node, st: Val(TU("QHash"), v.t)
-Exec.truthy_handlers["QHash"] = lambda ex, v: q_hash_truthy(v.t)
+Exec.attr_handlers[("Q", "_hash")] = lambda ex, v, node, st: Val(TU("H"), z3.Function("q_hashv", sort_of(Q), sort_of(TU("H")))(v.t))
 Exec.truthy_handlers["Q"] = lambda ex, v: z3.BoolVal(True)  # query classes define neither __bool__ nor __len__
 QOPT = TOpt(Q)
 Exec.attr_handlers[("Q", "query2")] = lambda ex, v, node, st: Val(QOPT, z3.If(q_has2(v.t), o_some(QOPT, q_q2(v.t)), o_none(QOPT)))
